@@ -68,3 +68,43 @@ package failsafegrpc
 //@   ensures [C18.grpc.builder.handles_retryable_statuses] typeis(result, *retrypolicy.config) && len(c.failureConditions) == 1 && c.failureConditions[0] == fnid("RetryPolicyBuilder$1") && len(c.abortConditions) == 0
 //@   havoc
 //@   modifies *
+
+// constructors: the returned interceptor / handle is the verified closure over the given executor; the policy variants build
+// the executor from exactly the given policies
+//@ func NewUnaryClientInterceptorWithExecutor
+//@   ensures [C18.grpc.client.ctor] clofn(result) == fnid("NewUnaryClientInterceptorWithExecutor$1") && cellof(clobind(result, 0), failsafe.Executor) == executor
+//@   modifies nothing
+//@ func NewUnaryServerInterceptorWithExecutor
+//@   ensures [C18.grpc.server.ctor] clofn(result) == fnid("NewUnaryServerInterceptorWithExecutor$1") && cellof(clobind(result, 0), failsafe.Executor) == executor
+//@   modifies nothing
+//@ func NewServerInHandleWithExecutor
+//@   ensures [C18.grpc.tap.ctor] clofn(result) == fnid("NewServerInHandleWithExecutor$1") && cellof(clobind(result, 0), failsafe.Executor) == executor
+//@   modifies nothing
+//@ extfunc github.com/failsafe-go/failsafe-go.Executor.Run
+//@   havoc
+//@ func NewServerInHandleWithExecutor$1$1
+//@   ensures [C18.grpc.tap.noop] result == nil
+//@   modifies nothing
+//@ func NewServerInHandleWithExecutor$1
+//@   requires executor != nil
+//@   ensures [C18.grpc.tap.passthrough] ncalls(executor.Run) == 1 && result_0 == ctx && result_1 == ret(executor.Run, 1) && arg(executor.Run, 1, 0) == fnid("NewServerInHandleWithExecutor$1$1")
+//@   havoc
+//@   modifies calls(executor.Run)
+//@ func NewUnaryClientInterceptor
+//@   oldlet n := 0
+//@   oncall NewExecutor: n := n + 1; ps := callarg_0; x := callresult_0
+//@   ensures [C18.grpc.client.from_policies] n == 1 && len(ps) == len(policies) && (forall j int :: 0 <= j && j < len(policies) ==> ps[j] == policies[j]) && clofn(result) == fnid("NewUnaryClientInterceptorWithExecutor$1") && cellof(clobind(result, 0), failsafe.Executor) == x
+//@   havoc
+//@   modifies *
+//@ func NewUnaryServerInterceptor
+//@   oldlet n := 0
+//@   oncall NewExecutor: n := n + 1; ps := callarg_0; x := callresult_0
+//@   ensures [C18.grpc.server.from_policies] n == 1 && len(ps) == len(policies) && (forall j int :: 0 <= j && j < len(policies) ==> ps[j] == policies[j]) && clofn(result) == fnid("NewUnaryServerInterceptorWithExecutor$1") && cellof(clobind(result, 0), failsafe.Executor) == x
+//@   havoc
+//@   modifies *
+//@ func NewServerInHandle
+//@   oldlet n := 0
+//@   oncall NewExecutor: n := n + 1; ps := callarg_0; x := callresult_0
+//@   ensures [C18.grpc.tap.from_policies] n == 1 && len(ps) == len(policies) && (forall j int :: 0 <= j && j < len(policies) ==> ps[j] == policies[j]) && clofn(result) == fnid("NewServerInHandleWithExecutor$1") && cellof(clobind(result, 0), failsafe.Executor) == x
+//@   havoc
+//@   modifies *
